@@ -112,6 +112,13 @@ WindowRoutesOk(q, ref, b) ==
        LET row == Lookup1(q, tab.wins[j].id) IN
        IF InWin(tab.wins[j], b) THEN RowsUlpEq(row, ref) ELSE row = << >>
 
+\* the bins and the part of a matrix row the known finding C04-otf-lastplane is about
+VoxZ(v) == v \div (cfg.nx * cfg.ny)
+RECURSIVE TopZTo(_, _)
+TopZTo(row, n) == IF n = 0 THEN -1 ELSE Max2(VoxZ(row[n][1]), TopZTo(row, n - 1))
+DropTop(row) == SelectSeq(row, LAMBDA e : VoxZ(e[1]) < TopZTo(row, Len(row)))
+LastPlaneBin(b, axhi) == b[1] = 0 /\ b[4] = 0 /\ (4 * b[3]) % cfg.views # 0 /\ b[2] = axhi
+
 BinClass(r) ==
   LET b == r.b
       vs == VSofBin(r.b) IN
@@ -126,7 +133,9 @@ BinClass(r) ==
   ELSE IF ~WindowRoutesOk(r.FW, r.F, b) THEN "forward-window"
   ELSE IF ~WindowRoutesOk(r.BW, r.B, b) THEN "back-window"
   \* "The on-the-fly ray-tracing forward projector gives the same data as forward projection through the ray-tracing matrix"
-  ELSE IF cfg.otf /\ ~(RowEntriesOk(r.O, TRUE) /\ RowTolEq(r.F, r.O)) THEN "on-the-fly"
+  ELSE IF cfg.otf /\ ~(RowEntriesOk(r.O, TRUE) /\ RowTolEq(r.F, r.O))
+       THEN (IF RowEntriesOk(r.O, TRUE) /\ LastPlaneBin(b, SegRow(cfg, 0)[3]) /\ r.F # << >> /\ RowTolEq(DropTop(r.F), r.O)
+             THEN "C04-otf-lastplane" ELSE "on-the-fly")
   ELSE "ok"
 
 (* ------------------------------------------------------------------------------------------ *)
@@ -183,13 +192,23 @@ HistWin(r) == [g |-> << r.w[1], r.w[2] >>, k |-> r.w[3], axlo |-> r.w[4], axhi |
 \* forward_project(RelatedViewgrams&, ranges) of the on-the-fly projector into viewgrams holding the integer data y:
 \* "it overwrites the data already present in the viewgram" and gives "the same data as forward projection through the
 \* ray-tracing matrix"; accumulate = TRUE describes the known finding C04-otf-accumulates (the projection is ADDED to y)
-OtfObs(r, accumulate) ==
+\* lastplane = TRUE describes the known finding C04-otf-lastplane: for segment 0, tangential position 0, views that are not
+\* multiples of 45 degrees, the contribution of the image plane above the last requested axial position is lost
+OtfObs(r, accumulate, lastplane) ==
   /\ cfg.otf /\ l > base + cfg.nb /\ ~r.err /\ WinRangeOk(cfg, HistWin(r)) /\ r.w[3] = 0
   /\ IntsOk(r.y, cfg.nb, 3) /\ IntsOk(r.x, cfg.nv, 2) /\ Len(r.fx) = cfg.nb /\ Len(r.ord) = cfg.nb
   /\ \A i \in 1 .. cfg.nb :
-       IF InWin(HistWin(r), BinLine(i - 1).b) THEN OtfClose(r.fx[i], BinLine(i - 1).F, r.x, IF accumulate THEN r.y[i] * FxOne ELSE 0)
+       LET b == BinLine(i - 1).b
+           off == IF accumulate THEN r.y[i] * FxOne ELSE 0 IN
+       IF InWin(HistWin(r), b)
+       THEN \/ OtfClose(r.fx[i], BinLine(i - 1).F, r.x, off)
+            \/ (lastplane /\ LastPlaneBin(b, r.w[5]) /\ BinLine(i - 1).F # << >> /\ OtfClose(r.fx[i], DropTop(BinLine(i - 1).F), r.x, off))
        ELSE r.fx[i] = r.y[i] * FxOne
-OtfClass(r) == IF OtfObs(r, FALSE) THEN "ok" ELSE IF OtfObs(r, TRUE) THEN "C04-otf-accumulates" ELSE "on-the-fly-group"
+OtfClass(r) == IF OtfObs(r, FALSE, FALSE) THEN "ok"
+               ELSE IF OtfObs(r, TRUE, FALSE) THEN "C04-otf-accumulates"
+               ELSE IF OtfObs(r, FALSE, TRUE) THEN "C04-otf-lastplane"
+               ELSE IF OtfObs(r, TRUE, TRUE) THEN "C04-otf-accumulates+C04-otf-lastplane"
+               ELSE "on-the-fly-group"
 
 SubsetArgsOk(r) == r.N \in 1 .. cfg.views + 1 /\ r.s \in 0 .. r.N - 1 /\ ~r.err
 HistWinOk(r) == WinRangeOk(cfg, HistWin(r)) /\ ~r.err
